@@ -4,6 +4,7 @@
 //! `Json` module) can produce their inputs and consume their outputs.
 
 mod dfa;
+mod lifecycle;
 mod observe;
 mod replay;
 mod total;
@@ -17,6 +18,7 @@ fn main() {
     match cmd.as_str() {
         "observe" => observe::run(&args[1..]),
         "replay" => replay::run(&args[1..]),
+        "lifecycle" => lifecycle::run(&args[1..]),
         "total" => total::run(&args[1..]),
         "total-worker" => total::worker(),
         other => {
